@@ -98,6 +98,9 @@ class Interp(object):
         self.repo_root = os.path.realpath(repo_root)
         self.repo_packages = repo_packages
         self._files = {}       # path -> (tree, {lineno: [nodes]})
+        self._pathcache = {}
+        self._realcache = {}
+        self._nodecache = {}
         self.summaries = {}    # native callable (id) -> handler(interp, args, kwargs)
         self.contracts = {}    # underlying function object -> handler(interp, args, kwargs)
         self.used = {}         # qualified name -> source hash (functions interpreted)
@@ -130,10 +133,20 @@ class Interp(object):
         return ent
 
     def is_repo_path(self, path):
-        try:
-            return os.path.realpath(path).startswith(self.repo_root + os.sep)
-        except Exception:
-            return False
+        r = self._pathcache.get(path)
+        if r is None:
+            try:
+                r = os.path.realpath(path).startswith(self.repo_root + os.sep)
+            except Exception:
+                r = False
+            self._pathcache[path] = r
+        return r
+
+    def _real(self, path):
+        r = self._realcache.get(path)
+        if r is None:
+            r = self._realcache[path] = os.path.realpath(path)
+        return r
 
     def is_repo_function(self, fn):
         code = getattr(fn, '__code__', None)
@@ -150,7 +163,16 @@ class Interp(object):
 
     def node_of(self, fn):
         code = fn.__code__
-        path = os.path.realpath(code.co_filename)
+        got = self._nodecache.get(code)
+        if got is not None:
+            return got
+        got = self._node_of(fn)
+        self._nodecache[code] = got
+        return got
+
+    def _node_of(self, fn):
+        code = fn.__code__
+        path = self._real(code.co_filename)
         tree, idx, lines = self._load(path)
         cands = idx.get(code.co_firstlineno, [])
         name = code.co_name
